@@ -23,9 +23,24 @@ def is_single():
     return _SINGLE[0]
 
 
+_TORCH64 = [False]
+
+
+def set_torch_rounding(flag):
+    """torch backend with dtype float64: pgmpy builds every factor through a float32 tensor (known finding, reported by C01), so
+    exact answers carry single-precision rounding of their inputs and intermediates; comparisons allow exactly that much."""
+    _TORCH64[0] = bool(flag)
+
+
+def is_torch_rounding():
+    return _TORCH64[0]
+
+
 def close(a, b, atol=ATOL, rtol=RTOL):
     if _SINGLE[0]:
         atol, rtol = max(atol, 2e-5), max(rtol, 2e-3)
+    elif _TORCH64[0]:
+        atol, rtol = max(atol, 5e-7), max(rtol, 1e-5)
     a = np.asarray(a, dtype=float)
     b = np.asarray(b, dtype=float)
     if a.shape != b.shape:
